@@ -8,19 +8,17 @@ PROPS = "Transparent RefIsC01"
 def run(ctx):
     ctx.cov["rule"] = ("states = TLC refinement check Search(cache off) = RouteSpec over the template universe; behaviours = TLC -simulate "
                        "runs (configuration built from 21 entry templates x 3 host forms, then requests incl. method tokens no configuration "
-                       "can list and decoded paths with a %XX sequence left) replayed on a real mux with "
+                       "can list and decoded paths with a %XX sequence left; at most one step in which the backend that "
+                       "has just served a request is deleted from the mapper) replayed on a real mux with "
                        "cacheSize 0, outcome compared with the contract's prediction after every request; traces = seeded random "
                        "configurations (richer grammar) with their requests, each validated by TLC against the contract; non-trivial = "
                        "distinct (owning-entry features, outcome class) pairs observed on the real code")
     ctx.assumptions += ["regular expressions restricted to the family ^?lit(.*)?$? of specs/Strings.tla (Go regexp outside it is trusted)",
                         "route cache off (cacheSize 0); no IP filters; plain HTTP/1.1 requests driven in-process through mux.ServeHTTP",
-                        "hosts are names, name:port or [v6]:port", "/.well-known/acme-challenge/ paths excluded"]
-    if ctx.phase("mc"):
-        _mc(ctx)
-    if ctx.phase("mbt"):
-        _mbt(ctx)
-    if ctx.phase("tv"):
-        _tv(ctx)
+                        "hosts are names, name:port or [v6]:port",
+                        "'a matched backend name that does not exist' read at the time of the request: the mapper may lose a backend between "
+                        "two requests (no reload of the server in between)", "/.well-known/acme-challenge/ paths excluded"]
+    R.run_phases(ctx, (("mc", _mc), ("mbt", _mbt), ("tv", _tv)))
 
 
 def _mc(ctx):
@@ -37,16 +35,20 @@ def _mc(ctx):
         ctx.log("refinement (deep universe): %d transitions" % r.generated)
 
 
-def _violation(ctx, cfg, q, exp, got, own, how, replay):
+def _violation(ctx, cfg, q, exp, got, own, how, replay, gone=None):
     sig = {"kind": how, "exp": R.kind(exp), "got": R.kind(got)}
     sig.update(R.entry_features(cfg, own))
-    ctx.violation(sig, "request %s: real mux (cache off) answers %s, the contract says %s" % (R.show_req(q), R.show(got), R.show(exp)), replay)
+    what = "request %s: real mux (cache off) answers %s, the contract says %s" % (R.show_req(q), R.show(got), R.show(exp))
+    if gone and R.kind(exp) == "503":
+        sig["deleted"] = True
+        what += "; backend %s was deleted from the mapper after it had served a request" % ", ".join(gone)
+    ctx.violation(sig, what, replay)
 
 
 def _mbt(ctx):
     nb = 500 if ctx.quick else 8000
     behs = ctx.tlc_simulate("HttpRouter_Gen", R.gen_cfg("C01Reqs", 6 if ctx.quick else 10, False, "C01Templates", "C01Shells",
-                                                        "C01ServerFilters", "PlansBig"),
+                                                        "C01ServerFilters", "PlansBig", unmaps=1),
                             num=nb, depth=28 if ctx.quick else 40, timeout=900)
     behs = [b for b in behs if b and b[0].get("a") == "cfg" and len(b) > 1]
     if len(behs) < nb // 2:
@@ -69,16 +71,28 @@ def _mbt(ctx):
         ctx.inconclusive("C01: replay executed only %d requests" % steps)
     ctx.evals(steps)
     ctx.traces(len(behs))
+    gone503 = 0      # requests that get 503 because their backend was deleted earlier in the behaviour
     for b in behs:
         cfg = b[0]["cfg"]
+        gone = set()
         for s in b[1:]:
+            if s.get("a") == "unmap":
+                gone.add(s["be"])
             if s.get("a") == "req":
                 f = R.entry_features(cfg, s.get("own"))
-                ctx.nontrivial({"f": f, "k": R.kind(s["exp"]), "rw": s["exp"].get("path") != s["q"].get("path")})
+                late = False
+                if s["exp"].get("code") == 503 and s["own"].get("code") == 0:
+                    i, j = s["own"]["pos"]
+                    late = cfg["rules"][i - 1]["paths"][j - 1]["backend"] in gone
+                    gone503 += late
+                ctx.nontrivial({"f": f, "k": R.kind(s["exp"]), "rw": s["exp"].get("path") != s["q"].get("path"), "gone": late})
+    ctx.notes.append({"replay_503_after_backend_deleted": gone503})
+    if gone503 < len(behs) // 50:
+        ctx.inconclusive("C01: only %d generated requests are routed to a backend deleted earlier in the behaviour" % gone503)
     ctx.sample({"kind": "tlc-behaviour", "entries": [len(r["paths"]) for r in behs[0][0]["cfg"]["rules"]],
                 "steps": [{"q": R.show_req(s["q"]), "exp": R.show(s["exp"])} for s in behs[0][1:4] if s.get("a") == "req"]})
     for m in [x for x in recs if x.get("k") == "mismatch"]:
-        _violation(ctx, m["cfg"], m["q"], m["exp"], m["got"], m.get("own"), "replay", m)
+        _violation(ctx, m["cfg"], m["q"], m["exp"], m["got"], m.get("own"), "replay", m, m.get("gone"))
 
 
 def _tv(ctx):
@@ -94,8 +108,9 @@ def _tv(ctx):
     for e in reqs:
         codes[R.kind(e["ou"])] = codes.get(R.kind(e["ou"]), 0) + 1
     need = ["backend", "400", "404", "405"] + ([] if ctx.quick else ["503"])
+    vacuous = None      # judged after the trace (the counts come from the real code)
     if any(codes.get(k, 0) == 0 for k in need):
-        ctx.inconclusive("C01 trace is vacuous: outcome classes seen %s" % codes)
+        vacuous = "C01 trace is vacuous: outcome classes seen %s" % codes
     bad = R.validate_chunks(ctx, ev, "c01_tv", chunk=2500 if ctx.quick else 6000)
     ctx.evals(len(reqs))
     ctx.traces(ncfgs)
@@ -109,3 +124,5 @@ def _tv(ctx):
             continue
         _violation(ctx, R.cfg_of_line(ev, idx), e["q"], rec["exp"], e["ou"], rec.get("own"), "trace",
                    {"cfg": R.cfg_of_line(ev, idx), "q": e["q"], "observed": e["ou"], "contract": rec["exp"]})
+    if vacuous:
+        ctx.inconclusive(vacuous)
